@@ -349,6 +349,7 @@ void Value::do_jacobi_symbol() {
         if (args[1].size() != 32) abort("k must be 32 bytes (not %zu)", args[1].size());
         n = UintToArith256(uint256(args[0]));
         k = UintToArith256(uint256(args[1]));
+        if (k.bits() == 0) abort("k must not be zero");
     }
 
     n = n % k;
